@@ -51,8 +51,14 @@ func acc(o runtime.Object) metav1.Object {
 
 var (
 	labelKeys = []string{"app", "tier", "env"}
-	annKeys   = []string{"note", "proxy.kubegateway.io/feature-gates", "owner"}
-	vals      = []string{"a", "b", "c", ""}
+	// annotation keys: well-known ones (a comparison that special-cases any of them changes the generation rule), keys with
+	// and without prefix
+	annKeys = []string{"note", "proxy.kubegateway.io/feature-gates", "owner", "kubectl.kubernetes.io/last-applied-configuration",
+		"kubernetes.io/change-cause", "deployment.kubernetes.io/revision", "example.com/marker", "control-plane.alpha.kubernetes.io/leader"}
+	vals    = []string{"a", "b", "c", ""}
+	annVals = []string{"a", "b", "c", "", "1", "2", "kubectl apply --filename=cluster.yaml --record=true",
+		`{"apiVersion":"proxy.kubegateway.io/v1alpha1","kind":"UpstreamCluster","metadata":{"annotations":{},"labels":{"app":"a"},"name":"c20-cluster"},"spec":{"servers":[{"endpoint":"https://10.0.0.1:6443"}]}}`,
+		`{"apiVersion":"proxy.kubegateway.io/v1alpha1","kind":"UpstreamCluster","metadata":{"annotations":{},"labels":{"app":"b"},"name":"c20-cluster"},"spec":{"servers":[{"endpoint":"https://10.0.0.1:6443"}]}}`}
 )
 
 func metaEdits() []func(g *vkit.Rand) edit {
@@ -77,7 +83,7 @@ func metaEdits() []func(g *vkit.Rand) edit {
 			}}
 		},
 		func(g *vkit.Rand) edit {
-			k, v, mode := g.Pick(annKeys), g.Pick(vals), g.Intn(4)
+			k, v, mode := g.Pick(annKeys), g.Pick(annVals), g.Intn(4)
 			return edit{"annotations", "annotations", func(o runtime.Object) {
 				a := acc(o)
 				l := copyMap(a.GetAnnotations())
@@ -95,10 +101,29 @@ func metaEdits() []func(g *vkit.Rand) edit {
 				a.SetAnnotations(l)
 			}}
 		},
+		// what `kubectl apply` of a label edit sends: the label and the last-applied-configuration annotation change together
+		func(g *vkit.Rand) edit {
+			k, v, av := g.Pick(labelKeys), g.Pick(vals), g.Pick(annVals[7:])
+			return edit{"labels+last-applied-configuration", "annotations", func(o runtime.Object) {
+				a := acc(o)
+				l := copyMap(a.GetLabels())
+				if l == nil {
+					l = map[string]string{}
+				}
+				l[k] = v
+				a.SetLabels(l)
+				an := copyMap(a.GetAnnotations())
+				if an == nil {
+					an = map[string]string{}
+				}
+				an["kubectl.kubernetes.io/last-applied-configuration"] = av
+				a.SetAnnotations(an)
+			}}
+		},
 		// one annotation REPLACED by another, the count stays: marker annotations (empty value) old and/or new, a key-only
 		// change (value kept), a valued annotation replaced by a marker
 		func(g *vkit.Rand) edit {
-			newKey, mode := g.Pick([]string{"paused", "drain", "example.com/marker", "note2"}), g.Intn(3)
+			newKey, mode := g.Pick(append([]string{"paused", "drain", "note2"}, annKeys...)), g.Intn(3)
 			return edit{"annotations(key replaced, same count)", "annotations", func(o runtime.Object) {
 				a := acc(o)
 				l := copyMap(a.GetAnnotations())
@@ -233,7 +258,7 @@ func storedMeta(g *vkit.Rand, name string) metav1.ObjectMeta {
 	if g.Chance(0.6) {
 		m.Annotations = map[string]string{}
 		for i, n := 0, g.Intn(3); i < n; i++ {
-			m.Annotations[g.Pick(annKeys)] = g.Pick(vals)
+			m.Annotations[g.Pick(annKeys)] = g.Pick(annVals)
 		}
 	}
 	if g.Chance(0.25) && m.Annotations != nil {
@@ -631,6 +656,46 @@ func shrink(k *servedKind, kg *kindGen, op opKind, stored runtime.Object, edits 
 	return cur
 }
 
+// keySpecific: when the pair differs in exactly one annotation key, the same pair with that key renamed to a neutral one
+// (in the stored and in the submitted object) is run; if that conforms, the violation is specific to the key.
+func keySpecific(k *servedKind, kg *kindGen, op opKind, stored runtime.Object, edits []edit, class string) string {
+	asked := stored.DeepCopyObject()
+	for _, e := range edits {
+		e.Apply(asked)
+	}
+	sa, aa := acc(stored).GetAnnotations(), acc(asked).GetAnnotations()
+	var diff []string
+	for key, v := range sa {
+		if w, ok := aa[key]; !ok || w != v {
+			diff = append(diff, key)
+		}
+	}
+	for key := range aa {
+		if _, ok := sa[key]; !ok {
+			diff = append(diff, key)
+		}
+	}
+	if len(diff) != 1 {
+		return ""
+	}
+	const neutral = "verif.example.com/neutral"
+	rename := func(o runtime.Object) {
+		m := copyMap(acc(o).GetAnnotations())
+		if v, ok := m[diff[0]]; ok {
+			delete(m, diff[0])
+			m[neutral] = v
+		}
+		acc(o).SetAnnotations(m)
+	}
+	st2 := stored.DeepCopyObject()
+	rename(st2)
+	renamed := append(append([]edit(nil), edits...), edit{"rename", "annotations", rename})
+	if o := run(k, kg, op, st2, renamed); o.Class != class && !o.Refused {
+		return diff[0]
+	}
+	return ""
+}
+
 // diffParts names the parts in which stored + edits really differs from stored (edits can cancel out).
 func diffParts(stored runtime.Object, edits []edit) string {
 	asked := stored.DeepCopyObject()
@@ -778,6 +843,9 @@ func TestCheck(t *testing.T) {
 					min := shrink(tg.k, &tg.kg, op, stored, edits, o.Class)
 					mo := run(tg.k, &tg.kg, op, stored, min)
 					sig := fmt.Sprintf("C20/%s/%s/differs=%s", op, o.Class, diffParts(stored, min))
+					if k := keySpecific(tg.k, &tg.kg, op, stored, min, o.Class); k != "" {
+						sig += "/annotation-key=" + k // the same change on a neutral key conforms
+					}
 					if acc(stored).GetDeletionTimestamp() != nil && op != opCreate {
 						live := stored.DeepCopyObject()
 						acc(live).SetDeletionTimestamp(nil)
